@@ -107,6 +107,15 @@ func (n *node[T]) addSegment(seg *syntax.Segment) (*node[T], error) {
 		return nn, nil
 	}
 
+	// seg.Value[:l] 与 child.segment.Value[:l] 暨 parent.Value 是相同的
+	var s *syntax.Segment
+	if len(seg.Value) > l { // 剩余部分的语法需要在拆分已有节点之前验证，失败时不能改动已有的节点。
+		var err error
+		if s, err = n.root.interceptors.NewSegment(seg.Value[l:]); err != nil {
+			return nil, err
+		}
+	}
+
 	parent, err := splitNode(child, l)
 	if err != nil {
 		return nil, err
@@ -115,12 +124,6 @@ func (n *node[T]) addSegment(seg *syntax.Segment) (*node[T], error) {
 	// seg 与 parent 重叠
 	if len(seg.Value) == l {
 		return parent, nil
-	}
-
-	// seg.Value[:l] 与 child.segment.Value[:l] 暨 parent.Value 是相同的
-	s, err := n.root.interceptors.NewSegment(seg.Value[l:])
-	if err != nil {
-		return nil, err
 	}
 	return parent.addSegment(s)
 }
@@ -264,12 +267,11 @@ func splitNode[T any](n *node[T], pos int) (*node[T], error) {
 	if p == nil {
 		panic("节点必须要有一个有效的父节点，才能进行拆分")
 	}
-	p.children = removeNodes(p.children, n.segment.Value) // 先从父节点中删除老的 n
-
 	segs, err := n.segment.Split(n.root.interceptors, pos)
-	if err != nil {
+	if err != nil { // 拆分失败时不能改动已有的节点
 		return nil, err
 	}
+	p.children = removeNodes(p.children, n.segment.Value) // 先从父节点中删除老的 n
 	ret := p.newChild(segs[0])
 	// 后一段继续使用 n 对象本身：OPTIONS 和 405 的处理函数在生成时引用了该对象，
 	// 换成新对象会让它们的 Allow 报头永远停留在拆分之前的状态。
